@@ -21,6 +21,18 @@ from .. import common as cm
 
 PROP = 'C17'
 THEOREMS = [
+    # the regime: no periodic image flips (builds on the strict-minimum characterisation of dvect)
+    'C17.image_stable', 'C17.image_stable_margin', 'C17.displacement_is_imposed',
+    # rigid slip of a half crystal
+    'C17.slip_rigid', 'C17.slip_zero_away', 'C17.slip_rigid_of_stable', 'C17.dd_is_difference', 'C17.dd_of_stable',
+    'C17.disregistry_rigid', 'C17.disregistry_rigid_full',
+    # homogeneous deformation gradient
+    'C17.G_homogeneous', 'C17.G_exact_fit', 'C17.invT_of_rotation', 'C17.bestP_of_isBest', 'C17.bestP_none',
+    'C17.matchPQ_pairing_partial', 'C17.solveG_homogeneous', 'C17.strainG_homogeneous', 'C17.measures_homogeneous',
+    'C17.strain_symm', 'C17.rotation_antisymm', 'C17.strain_add_rotation', 'C17.strain_one', 'C17.invariants_charpoly',
+    'C17.nye_zero',
+    # joint translation, consistent renumbering
+    'C17.translation_invariant', 'C17.permutation_equivariant',
 ]
 PARTIAL = {
     'matchPQ_pairing': 'pairing correctness of match_pq is proved only under the hypothesis that every current '
@@ -1029,7 +1041,22 @@ def replay(ctx, payload):
 
 
 MANIFEST = {
-    'text': 'TODO',
-    'note': 'TODO',
-    'technique': 'Lean 4 theorems over a hand-written executable model + differential correspondence',
+    'text': 'Lean model of displacement, slip_vector_c, DifferentialDisplacement.solve, disregistry (plane selection, '
+            'column means, np.interp), match_pq (best-angle loop and conflict loop), lstsq as the normal equations, '
+            'strain/rotation/invariants and the Nye tensor. Proved for every linearly ordered field: if no periodic image '
+            'flips (candidate s stays the strict minimum by a gap dominating the relative displacement: image_stable) the '
+            'separation of a displaced pair is the old one plus u_j - u_i; hence displacement is the imposed one, a '
+            'two-valued rigid slip gives slip_i = (#neighbours across) x (own - other half displacement) and 0 away from '
+            'the plane, every dd vector is u_j - u_i, the disregistry profile is the slip at every coordinate; q = F p '
+            'on the matched pairs with full rank gives G = F^-T (= F for a rotation), through the real pairing loop '
+            'under its hypothesis (each q has a best p inside theta_max, distinct q distinct p); strain/rotation are '
+            'the symmetric/antisymmetric parts of I - G, the invariants the characteristic-polynomial coefficients; '
+            'constant G gives a zero Nye tensor; all per-atom results are unchanged by a joint translation and carried '
+            'along by a consistent renumbering. The model is tied to the compiled/pure-python code by a differential '
+            'run (exact on dyadic inputs) and the clauses are searched on the real code with an exact oracle.',
+    'note': 'Partial: that a small deformation of a perfect crystal satisfies the pairing hypothesis of match_pq, and '
+            'that numpy lstsq solves the normal equations, are checked on the implementation, not proved. Trusted: Lean '
+            'kernel + propext/Classical.choice/Quot.sound; the correspondence harness; numpy (lstsq, unique, interp, '
+            'isclose); NeighborList/supersize/rotate as generators. Floating-point rounding is bounded, not verified.',
+    'technique': 'Lean 4 theorems over a hand-written executable model + differential correspondence + exact oracle search',
 }
